@@ -1,10 +1,188 @@
-(** C01 — reads return exactly the memory the dump file encodes.
-    Statements only; every proof is [exact <lemma>]. *)
+(** C01 — reads return exactly the memory the dump file encodes, in every
+    format.  Statements only; every proof is [exact <lemma>].
+
+    Shape of the per-format statements: for every memory image [img], every
+    well-formed layout [l] of the format and every stored representation
+    [pages] of the image's pages (raw or compressed; [decompress] is any
+    function that inverts the writer's compressor on the stored payloads),
+    the reader model, run on the bytes that the format's writer ([encode_*],
+    the spec) produces, opens the file, reports the geometry the layout says
+    and answers every page read with exactly what the image holds
+    ([spec_read_page]: the page's bytes; NODATA for an absent page, or zeroes
+    when zero-fill of excluded pages is on; never other bytes).
+
+    The reader model is tied to the C code by the differential run of
+    bin/check C01 (engine fmt). *)
 From Coq Require Import NArith List Bool.
-From KdV Require Import Fmt.Codec Fmt.Rle.
+From KdV Require Import Fmt.Codec Fmt.CodecProofs Fmt.Rle Fmt.RleProofs
+     Fmt.PfnModel Fmt.BitmapSpec Fmt.DiskdumpModel Fmt.DiskdumpSpec Fmt.DiskdumpProofs.
 Import ListNotations.
 Local Open Scope N_scope.
 
+(** * integer codecs *)
+
+Theorem C01_codec_roundtrip : forall be n v,
+  v < 256 ^ N.of_nat n -> get be (put be n v) = v.
+Proof. exact get_put. Qed.
+Print Assumptions C01_codec_roundtrip.
+
+Theorem C01_codec_roundtrip_bytes : forall be l,
+  bytes_ok l -> put be (length l) (get be l) = l.
+Proof. exact put_get. Qed.
+Print Assumptions C01_codec_roundtrip_bytes.
+
+(** * RLE (LKCD pages) *)
+
+(** every well-formed RLE stream (any mixture of literals, escaped zeroes and
+    runs) decodes to its expansion when the destination is large enough *)
+Theorem C01_rle_decode : forall ts dstlen,
+  Forall tok_ok ts -> len (rle_expand ts) <= dstlen ->
+  uncompress_rle (rle_render ts) dstlen = Some (rle_expand ts).
+Proof. exact rle_decode_render. Qed.
+Print Assumptions C01_rle_decode.
+
+Theorem C01_rle_roundtrip : forall page dstlen,
+  bytes_ok page -> len page <= dstlen ->
+  uncompress_rle (rle_encode page) dstlen = Some page.
+Proof. exact rle_roundtrip. Qed.
+Print Assumptions C01_rle_roundtrip.
+
+(** exact size: a stream that expands beyond the destination is rejected, and
+    whatever the source bytes are, the output never exceeds the destination *)
+Theorem C01_rle_exact_size : forall ts dstlen,
+  Forall tok_ok ts -> dstlen < len (rle_expand ts) ->
+  uncompress_rle (rle_render ts) dstlen = None.
+Proof. exact rle_decode_overflow. Qed.
+Print Assumptions C01_rle_exact_size.
+
+Theorem C01_rle_never_overruns : forall src dstlen out,
+  uncompress_rle src dstlen = Some out -> len out <= dstlen.
+Proof. exact rle_output_bound. Qed.
+Print Assumptions C01_rle_never_overruns.
+
+(** * diskdump / makedumpfile KDUMP *)
+
+(** [_partial]: single-file dumps.  The layout record [dd_wf] fixes
+    [dl_split = false]; split sets are exercised by the tie of C11 and are not
+    covered by this theorem.  Everything else the property quantifies over is
+    covered: header versions 0-6, 32/64-bit headers, both sub-header layouts of
+    32-bit dumps, both byte orders, page sizes 2^12..2^18, one or two bitmaps,
+    any exclusion pattern, any per-page method among raw/zlib/snappy/zstd with
+    arbitrary unknown flag bits, any utsname / VMCOREINFO / notes / eraseinfo
+    bytes. *)
+Theorem C01_diskdump_geometry_partial : forall decompress l pages img,
+  dd_wf l img -> Forall2 (stores decompress) pages img -> len (encode_dd l pages) < 2^64 ->
+  exists st, dd_open (read_files [encode_dd l pages]) 1 = Ok st /\
+    dd_be st = dl_be l /\ dd_ptr_size st = (if dl_64 l then 8 else 4) /\
+    dd_page_size st = dl_page_size l /\ dd_max_pfn st = dl_max_mapnr l.
+Proof. exact diskdump_geometry. Qed.
+Print Assumptions C01_diskdump_geometry_partial.
+
+Theorem C01_diskdump_roundtrip_partial : forall decompress l pages img,
+  dd_wf l img -> Forall2 (stores decompress) pages img -> len (encode_dd l pages) < 2^64 ->
+  exists st, dd_open (read_files [encode_dd l pages]) 1 = Ok st /\
+    forall zero_excluded pfn,
+      dd_read_page (read_files [encode_dd l pages]) decompress st zero_excluded pfn =
+      spec_read_page img (dl_page_size l) (dl_max_mapnr l) zero_excluded pfn.
+Proof. exact diskdump_roundtrip. Qed.
+Print Assumptions C01_diskdump_roundtrip_partial.
+
+(** the right-hand side above, spelled out *)
+Theorem C01_spec_read_page_meaning : forall img pgsz max_pfn z pfn,
+  match spec_read_page img pgsz max_pfn z pfn with
+  | Ok data =>
+      pfn < max_pfn /\
+      (nth_error img (N.to_nat pfn) = Some (Some data) \/
+       (z = true /\ data = zeros pgsz /\
+        match nth_error img (N.to_nat pfn) with Some (Some _) => False | _ => True end))
+  | Err e =>
+      e = ERR_NODATA /\
+      (max_pfn <= pfn \/ (z = false /\
+        match nth_error img (N.to_nat pfn) with Some (Some _) => False | _ => True end))
+  end.
+Proof. exact spec_read_page_cases. Qed.
+Print Assumptions C01_spec_read_page_meaning.
+
+(** the pieces of the page path that carry the content *)
+Theorem C01_binary_search_is_first_match : forall rs p,
+  Sorted.StronglySorted PfnProofs.before rs ->
+  find_pfn_region rs p = PfnProofs.find_lin rs p.
+Proof. exact PfnProofs.find_pfn_region_lin. Qed.
+Print Assumptions C01_binary_search_is_first_match.
+
+(** * the hypotheses are satisfiable *)
+
+Definition ex_layout : dd_layout :=
+  {| dl_be := true; dl_64 := false; dl_pad := true; dl_kdump_sig := true;
+     dl_version := 6; dl_page_size := 4096; dl_uts := []; dl_status := 1;
+     dl_sub_blocks := 1; dl_two_bitmaps := true; dl_bmp_blocks := 1; dl_max_mapnr := 11;
+     dl_phys_base := 0; dl_dump_level := 31; dl_split := false; dl_start_pfn := 0; dl_end_pfn := 0;
+     dl_vmcoreinfo := [79; 83; 61; 49; 10]; dl_notes := []; dl_eraseinfo := [];
+     dl_mem_extra := [true; true]; dl_data_gap := 8 |}.
+
+Definition ex_page (b : N) : bytes := repeat b 4095 ++ [(b + 1) mod 256].
+Definition ex_img : image :=
+  [None; Some (ex_page 7); Some (ex_page 0); None; None; None; None; None; None; Some (ex_page 255)].
+Definition ex_pages : list (option dd_page) :=
+  map (option_map (fun c => {| dp_flags := 8; dp_payload := c |})) ex_img.
+Definition ex_dec : N -> bytes -> option bytes := fun _ _ => None.
+
+Lemma bytes_ok_check l : forallb (fun b => b <? 256) l = true -> bytes_ok l.
+Proof.
+  intro H. apply Forall_forall. intros x Hx.
+  rewrite forallb_forall in H. apply N.ltb_lt. now apply H.
+Qed.
+
+Example C01_nonvacuous_diskdump_hyps :
+  dd_wf ex_layout ex_img /\ Forall2 (stores ex_dec) ex_pages ex_img /\
+  len (encode_dd ex_layout ex_pages) < 2^64.
+Proof.
+  assert (Hpage : forall b, b < 256 -> len (ex_page b) = 4096 /\ bytes_ok (ex_page b)).
+  { intros b Hb. unfold ex_page. split.
+    - rewrite len_app, len_repeat. reflexivity.
+    - apply bytes_ok_app.
+      + apply Forall_forall. intros x Hx. apply repeat_spec in Hx. now subst.
+      + constructor; [apply N.mod_lt; discriminate | constructor]. }
+  assert (H7 := Hpage 7 eq_refl). assert (H0 := Hpage 0 eq_refl). assert (H255 := Hpage 255 eq_refl).
+  split; [| split].
+  - constructor.
+    + exists 12. split; [split; discriminate | reflexivity].
+    + discriminate.
+    + intro H. exfalso. revert H. cbn. discriminate.
+    + reflexivity.
+    + discriminate.
+    + cbn [ex_layout dl_page_size ex_img]. repeat (constructor; try assumption).
+    + reflexivity.
+    + intros _. vm_compute. discriminate.
+    + split; [discriminate | reflexivity].
+    + vm_compute. discriminate.
+    + discriminate.
+    + reflexivity.
+    + intros _ _ _. discriminate.
+    + repeat split.
+    + repeat split.
+  - unfold ex_pages, ex_img. cbn [map option_map].
+    assert (Hs : forall b, b < 256 ->
+              page_stores ex_dec {| dp_flags := 8; dp_payload := ex_page b |} (ex_page b)).
+    { intros b Hb. unfold page_stores. cbn [dp_flags dp_payload].
+      destruct (Hpage b Hb) as [Hl _]. rewrite Hl. repeat split. }
+    repeat (constructor; try exact I; try (apply Hs; reflexivity)).
+  - vm_compute. reflexivity.
+Qed.
+
+(** ... and on that instance the reader does return the image *)
+Example C01_nonvacuous_diskdump :
+  (match dd_open (read_files [encode_dd ex_layout ex_pages]) 1 with
+   | Ok st =>
+       (dd_be st, dd_ptr_size st, dd_page_size st, dd_max_pfn st) = (true, 4, 4096, 11) /\
+       dd_read_page (read_files [encode_dd ex_layout ex_pages]) ex_dec st false 9 = Ok (ex_page 255) /\
+       dd_read_page (read_files [encode_dd ex_layout ex_pages]) ex_dec st false 3 = Err ERR_NODATA /\
+       dd_read_page (read_files [encode_dd ex_layout ex_pages]) ex_dec st true 3 = Ok (zeros 4096)
+   | Err _ => False
+   end).
+Proof. vm_compute. repeat split; reflexivity. Qed.
+
 Example C01_nonvacuous_rle :
-  uncompress_rle (rle_encode [1; 0; 0; 0; 7; 7; 7; 7; 7; 2]) 10 = Some [1; 0; 0; 0; 7; 7; 7; 7; 7; 2].
-Proof. vm_compute. reflexivity. Qed.
+  uncompress_rle (rle_encode [1; 0; 0; 0; 7; 7; 7; 7; 7; 2]) 10 = Some [1; 0; 0; 0; 7; 7; 7; 7; 7; 2]
+  /\ rle_encode [1; 0; 0; 0; 7; 7; 7; 7; 7; 2] = [1; 0; 3; 0; 0; 5; 7; 2].
+Proof. vm_compute. split; reflexivity. Qed.
